@@ -50,6 +50,9 @@ type logSink struct {
 
 func (s *logSink) Write(p []byte) (int, error) {
 	line := string(p)
+	if os.Getenv("VERIF_C14_DEBUG") != "" {
+		dbgf("[C14 LOG %s] %s", time.Now().Format("05.000000"), line)
+	}
 	switch {
 	case strings.Contains(line, "certificate event:"):
 		s.events.Add(1)
@@ -152,6 +155,10 @@ func main() {
 		}
 		if res.judgedFinal {
 			run.Add("histories_judged_for_convergence", 1)
+		}
+		if res.slowLoad > 0 {
+			run.Add("slow_initial_histories", 1)
+			run.Add("slow_initial_load_ms_total", res.slowLoad.Milliseconds())
 		}
 		run.Add("convergence_points_judged", int64(len(res.latencies)))
 		if res.endedBroken {
@@ -412,5 +419,17 @@ func runWiredChild(run *verdict.Run, h *history) {
 	}
 	if o.Inconclusive != "" && len(o.Violations) == 0 {
 		run.Inconclusive("flag-wired history #%d (%s): %s (twice)", h.ID, h.brief(), o.Inconclusive)
+	}
+}
+
+var dbgMu sync.Mutex
+
+// dbgf appends to the file named by VERIF_C14_DEBUG (debugging aid).
+func dbgf(format string, a ...any) {
+	dbgMu.Lock()
+	defer dbgMu.Unlock()
+	if f, err := os.OpenFile(os.Getenv("VERIF_C14_DEBUG"), os.O_APPEND|os.O_CREATE|os.O_WRONLY, 0o644); err == nil {
+		fmt.Fprintf(f, format, a...)
+		f.Close()
 	}
 }
